@@ -348,11 +348,28 @@ def check(ctx):
     ctx.inst('R8', dis, 'sentinel-after-disconnect', body == ['self.disconnect()', 'self._queue.put(self.DISCONNECT_EVENT)'], 'on link loss: disconnect(), then the sentinel is queued; body %s' % body)
     con = S.method('connect')
     lp2 = [l for l in walk_own(con.node) if isinstance(l, ast.For)]
-    ctx.need(len(lp2) == 1, 'SyncLogger.connect: config loop not found')
-    b2 = [norm(s) for s in lp2[0].body]
-    cv = norm(lp2[0].target)
-    ctx.inst('R8', con, 'connect-sequence', b2 == ['self._cf.log.add_config(%s)' % cv, '%s.data_received_cb.add_callback(self._log_callback)' % cv, '%s.start()' % cv],
-             'each configuration is added, hooked and started once, in that order; body %s' % b2)
+    ctx.need(len(lp2) >= 1, 'SyncLogger.connect: config loop not found')
+    gcon = cfg_of(con)
+    # per configuration: added, then hooked, then started - whatever loops carry the three steps, no block is started before the queue
+    # callback is registered on it (the receive thread delivers the first sample as soon as the start is acknowledged)
+    steps = {}
+    for kind_, pred in (('add', lambda q: method_call(q, 'add_config')), ('hook', lambda q: method_call(q, 'add_callback') and norm(q.func.value).endswith('data_received_cb')),
+                        ('start', lambda q: method_call(q, 'start') and not norm(q.func.value).startswith('self'))):
+        steps[kind_] = gcon.find(pred)
+    one_each = all(len(v) == 1 for v in steps.values())
+    okseq = one_each and [norm(a) for a in steps['hook'][0][1].args] == ['self._log_callback']
+    if okseq:
+        a_, h_, s_ = steps['add'][0][0], steps['hook'][0][0], steps['start'][0][0]
+        in_loop = {kind_: [l for l in gcon.nodes if l.kind == 'for' and v[0][0].id in {b.id for b in gcon.loop_body_nodes(l)}] for kind_, v in steps.items()}
+        same_loop = all(len(x) == 1 for x in in_loop.values()) and len({x[0].id for x in in_loop.values()}) == 1
+        if same_loop:
+            okseq = gcon.dominates(a_, h_) and gcon.dominates(h_, s_)
+        else:
+            # separate loops over the same list: the loop that hooks must be finished before the loop that starts begins
+            okseq = all(len(x) == 1 for x in in_loop.values()) and gcon.dominates(in_loop['hook'][0], in_loop['start'][0]) and \
+                in_loop['hook'][0].id != in_loop['start'][0].id and gcon.dominates(in_loop['add'][0], in_loop['start'][0]) and \
+                len({norm(x[0].ast.iter) for x in in_loop.values()}) == 1
+    ctx.inst('R8', con, 'connect-sequence', okseq, 'each configuration is added, hooked (queue callback) and started once, the hook before the start')
     reg = [c for c in walk_own(con.node) if method_call(c, 'add_callback') and norm(c.func.value) == 'self._cf.disconnected']
     ctx.inst('R8', con, 'disconnect-hook', len(reg) == 1 and [norm(a) for a in reg[0].args] == ['self._disconnected'], 'connect registers the disconnect hook')
 
